@@ -8,9 +8,10 @@ M-Store — database/store.go, store_checkpoint.go, cache.go AS THEY ARE: the ty
 * A block hash commits to (version, height, previous hash, timestamp, tx merkle root) — NOT
   to `BlockWitness` and `SupLinks`. So a header is `hash` (an abstract id), the committed
   `height`, and the uncommitted `wit`/`sl`.
-* Cached values are SHARED OBJECTS: `lookupCheckPoint` returns the pointer held by the cache
-  and `GetCheckpoint` appends the header's `SupLinks` to it in place. The cached checkpoint
-  therefore carries its own mutable `sl`.
+* Cached values are SHARED OBJECTS: `lookupCheckPoint` returns the pointer held by the cache.
+  Since fa651dae `GetCheckpoint` answers with a COPY (cached `SupLinks` ++ header `SupLinks`) and
+  no longer writes to the cached object, whose `sl` therefore stays as decoded (empty).
+* Since 941b4124 `SaveBlock` also calls `removeBlockHeader` for the block it writes.
 * groupcache/lru: `Get` and `Add` move the entry to the front, `Add` evicts the oldest entry
   when `len > MaxEntries` (`MaxEntries = 0` means unbounded), errors are never cached.
 
@@ -74,11 +75,6 @@ def Lru.add {κ β : Type} [DecidableEq κ] (c : Lru κ β) (k : κ) (v : β) : 
 /-- `lru.Cache.Remove` -/
 def Lru.remove {κ β : Type} [DecidableEq κ] (c : Lru κ β) (k : κ) : Lru κ β :=
   { c with items := aDel c.items k }
-
-/-- overwrite the value of a cached entry in place (a write through a shared pointer);
-    no reordering -/
-def Lru.poke {κ β : Type} [DecidableEq κ] (c : Lru κ β) (k : κ) (v : β) : Lru κ β :=
-  { c with items := c.items.map (fun e => if e.1 = k then (k, v) else e) }
 
 structure DB where
   hdr : List (Nat × Header)
@@ -154,7 +150,7 @@ def getBlock (s : Store) (b : Nat) : Option (Header × List Nat) × Store :=
     | (none, s2) => (none, s2)
     | (some t, s2) => (some (h, t), s2)
 
-/-- `GetCheckpoint`: the header's SupLinks are appended to the CACHED object -/
+/-- `GetCheckpoint`: a copy of the cached object with the header's SupLinks appended -/
 def getCheckpoint (s : Store) (b : Nat) : Option CkptObj × Store :=
   match getHeader s b with
   | (none, s1) => (none, s1)
@@ -169,9 +165,7 @@ def getCheckpoint (s : Store) (b : Nat) : Option CkptObj × Store :=
         | some c => let o : CkptObj := ⟨c, []⟩; (some o, { s1 with cCkpt := s1.cCkpt.add key o })
     match found with
     | (none, s2) => (none, s2)
-    | (some o, s2) =>
-      let o' : CkptObj := { o with sl := o.sl ++ h.sl }
-      (some o', { s2 with cCkpt := s2.cCkpt.poke key o' })
+    | (some o, s2) => (some { o with sl := o.sl ++ h.sl }, s2)
 
 /-- stable insertion by block id (the DB iterates in key = hash order; the harness sorts the
     answer by block code, so any fixed total order on ids gives the same observation) -/
@@ -204,14 +198,15 @@ def saveBlockHeader (s : Store) (h : Header) : Store :=
   { s with db := { s.db with hdr := aSet s.db.hdr h.hash h }, cHdr := s.cHdr.remove h.hash }
 
 /-- `SaveBlock`: reads the hash list THROUGH the cache, one batch of three records, then
-    `removeBlockHashes`. Neither the header cache nor the txs cache is touched. -/
+    `removeBlockHashes` and `removeBlockHeader`. The txs cache is not touched (a hash determines
+    its transaction list). -/
 def saveBlock (s : Store) (h : Header) (txs : List Nat) : Store :=
   let (hashes, s1) := getHashes s h.height
   let db := { s1.db with
     hashes := aSet s1.db.hashes h.height (hashes ++ [h.hash]),
     hdr := aSet s1.db.hdr h.hash h,
     txs := aSet s1.db.txs h.hash txs }
-  { s1 with db := db, cHashes := s1.cHashes.remove h.height }
+  { s1 with db := db, cHashes := s1.cHashes.remove h.height, cHdr := s1.cHdr.remove h.hash }
 
 /-- `SaveChainStatus` restricted to the main-chain index: one batch, then one
     `removeMainChainHash` per header -/
